@@ -44,6 +44,7 @@ LensQ == {0, 1, 32, 33, 34, 64, 65, 66}
 LensT == 0..70
 SlicePfx == {0, 1, 2, 3, 4, 5, 6, 7, 8, 255}
 SlicePfx7 == {0, 2, 3, 4, 6, 7, 255}
+SlicePfx32 == (0..15) \cup {16, 32, 64, 127, 128, 129, 130, 131, 132, 134, 135, 192, 252, 253, 254, 255}
 FieldEdge == (0..5) \cup ((P - 3)..(P + 5)) \cup ((2 * P - 2)..(2 * P + 2)) \cup {255, 256, 257, 65535 - P, 65534, 65535}
 FieldEdgeWide == (0..(2 * P + 5)) \cup {65535 - P, 65534, 65535}
 AllX2 == 0..65535
